@@ -127,3 +127,32 @@ Definition show_alias_ref (b : bytes) : string :=
                       ; "T:" ++ show_ref_view n (r_tcp r)
                       ; "P:" ++ show_ref_view n (Some (r_pay r)) ]
   end.
+
+(* ---------------------------------------------------------------- *)
+(* Canonical text of the classification tables (dispatch kind "table"): the harness extracts the same text from
+   layer_frame.go with go/ast. *)
+Definition payload_ids : list (N * string) :=
+  [ (PayloadEther, "PayloadEther"); (Payload8023, "Payload8023"); (PayloadARP, "PayloadARP"); (PayloadIP4, "PayloadIP4")
+  ; (PayloadIP6, "PayloadIP6"); (PayloadICMP4, "PayloadICMP4"); (PayloadICMP6, "PayloadICMP6"); (PayloadUDP, "PayloadUDP")
+  ; (PayloadTCP, "PayloadTCP"); (PayloadDHCP4, "PayloadDHCP4"); (PayloadDHCP6, "PayloadDHCP6"); (PayloadDNS, "PayloadDNS")
+  ; (PayloadMDNS, "PayloadMDNS"); (PayloadSSL, "PayloadSSL"); (PayloadNTP, "PayloadNTP"); (PayloadSSDP, "PayloadSSDP")
+  ; (PayloadWSDP, "PayloadWSDP"); (PayloadNBNS, "PayloadNBNS"); (PayloadPlex, "PayloadPlex"); (PayloadUbiquiti, "PayloadUbiquiti")
+  ; (PayloadLLMNR, "PayloadLLMNR"); (PayloadIGMP, "PayloadIGMP"); (PayloadEthernetPause, "PayloadEthernetPause")
+  ; (PayloadRRCP, "PayloadRRCP"); (PayloadLLDP, "PayloadLLDP"); (Payload802_11r, "Payload802_11r")
+  ; (PayloadIEEE1905, "PayloadIEEE1905"); (PayloadSonos, "PayloadSonos"); (Payload880a, "Payload880a") ].
+
+Definition show_row (r : N * N) : string := dec_of_N (fst r) ++ ">" ++ dec_of_N (snd r).
+Definition show_port_row (r : port_side * list N * N) : string :=
+  match r with
+  | (side, ports, id) =>
+      (match side with SrcOrDst => "e" | DstOnly => "d" end) ++ join "." (map dec_of_N ports) ++ ">" ++ dec_of_N id
+  end.
+
+Definition show_table (kind : string) : option string :=
+  if String.eqb kind "payloadid" then Some (join "," (map (fun r => dec_of_N (fst r) ++ ":" ++ snd r) payload_ids))
+  else if String.eqb kind "ethertype" then
+    (* the 802.3 length test in front of the switch, then the switch rows *)
+    Some (join "," (("lt1536>" ++ dec_of_N Payload8023) :: map show_row ethertype_rows))
+  else if String.eqb kind "ipproto" then Some (join "," (map show_row ipproto_rows))
+  else if String.eqb kind "udpports" then Some (join "," (map show_port_row udp_port_rows))
+  else None.
